@@ -383,6 +383,8 @@ Section Radau.
       if eqb O h (zero O) then None
       else
         let h := clamp h (neg O hmax) hmax in
+        let first_is_last := ((x0 + h - xend) * posneg) >=? zero O in
+        let h := if first_is_last then xend - x0 else h in
         let f0 := f x0 y0 in
         let st := add_fev stats0 1 in
         let log := [(x0, y0)] in
@@ -398,7 +400,7 @@ Section Radau.
             let scal := map3 (fun a r yi => a + r * abs O yi) atolv rtolv y in
             let zm : nat -> nat -> F := fun _ _ => zero O in
             loop P n f jacf mass atolv rtolv newton_tol xend posneg hmax hmin cb fuel
-                 (mkS x0 y h h h false false (zero O) (zero O) (one O) (zero O) (zero O) (zero O)
+                 (mkS x0 y h h h first_is_last false (zero O) (zero O) (one O) (zero O) (zero O) (zero O)
                       true true true 0%N f0 scal (repeat (zero O) (4 * n)) zm
                       (mkLU1 zm (fun _ => 0)) (mkLU2 zm zm (fun _ => 0)) st log [] cbs)
         end.
